@@ -217,6 +217,29 @@ def run_case(case: Dict[str, Any], ctx) -> None:
         why = explain(prog, params, inputs, outs_u, gu, names, ups, fwd, bwd, root_case, case, m)
         ctx.violation(f"C15:differs-from-straight-through-quantised-reference:{why}", f"{bad}; format {fmt_name} {case.get('fwd')} / {case.get('bwd')}; features {feats}",
                       source=src, fmt=fmt_name)
+    # ---- history: the SAME transformed module called again after ANOTHER transformed module made its first call (every first
+    # call resets TorchDynamo, so this module is compiled a second time): it must still be the quantised computation ----------
+    if not bad and not root_case and case["seed"] % 2 == 0:
+        try:
+            other = simulate_format(torch.nn.Sequential(torch.nn.Linear(3, 2)), FPFormat(5, 2, "nearest"), FPFormat(5, 2, "nearest"))
+            other(torch.ones(2, 3))
+            ins_2 = [t.detach().clone().requires_grad_(True) if t.is_floating_point() else t.clone() for t in inputs]
+            with QuantLog() as qlog2, pinned_randint(shape_keyed_randint):
+                out_2 = sim(*ins_2)
+                outs_2 = list(out_2) if isinstance(out_2, (tuple, list)) else [out_2]
+                leaves_2 = [t for t in ins_2 if t.is_floating_point()] + [params[k] for k in sorted(params)]
+                g2 = torch.autograd.grad(outs_2, leaves_2, ups, allow_unused=True)
+        except Exception as e:
+            ctx.violation("C15:transformed-module-raises-on-a-later-call:" + exc_key(e), repr(e), source=src, fmt=fmt_name)
+            return
+        ctx.count("history:called-again-after-another-module's-first-call")
+        same = len(outs_2) == len(outs_u) and all(bits_equal(a.detach(), b.detach()) for a, b in zip(outs_2, outs_u)) and all(
+            (a is None and b is None) or (a is not None and b is not None and bits_equal(a, b)) for a, b in zip(g2, gu))
+        if not same or len(qlog2.calls) != len(qlog.calls):
+            ctx.violation("C15:later-call-of-the-same-transformed-module-computes-something-else",
+                          f"first call: {len(qlog.calls)} quantise calls; after another transformed module's first call: {len(qlog2.calls)} quantise calls, "
+                          f"values {'equal' if same else 'differ'}", source=src, fmt=fmt_name)
+            return
     # ---- lossless pair: bit-for-bit the untransformed module ---------------------------------------------
     if fmt_name == "lossless" and not bad:
         ins_o = [t.detach().clone().requires_grad_(True) if t.is_floating_point() else t.clone() for t in inputs]
